@@ -60,7 +60,7 @@ NS = ["slice-0", "slice-1", "slice-2"]
 
 def base_rule(typ):
     return {"db": "db_verif", "table": "tbl_verif", "parent": "", "type": typ, "locations": [], "slices": [], "limit": 10,
-            "ranges": [], "databases": [], "pcount": [], "plength": [], "hs": {"form": "pair", "a": 0, "b": 2}, "seed": 0, "vbt": 2}
+            "ranges": [], "databases": [], "pcount": [], "plength": [], "hs": {"form": "pair", "a": 0, "b": 2}, "seed": 0, "vbt": 2, "spell": "plain"}
 
 
 def random_cfg(rng):
@@ -92,7 +92,16 @@ def random_cfg(rng):
         r["seed"] = rng.choice([0, 1, -1, 12345])
     if typ == "range":
         r["limit"] = rng.choice([1, 10, 1000, 0, -1])
+    if rng.random() < 0.15:
+        r["spell"] = rng.choice(["sp-after", "sp-before", "sp-both", "tab-after", "outer", "inner-and-outer"])
     return {"nsslices": NS, "default": rng.choice(["slice-0", "slice-0", "slice-1", "", "slice-x"]), "rules": [r]}
+
+
+def normalise(cfg):
+    """stored cases written before a field existed get its default"""
+    for r in cfg["rules"]:
+        r.setdefault("spell", "plain")
+    return cfg
 
 
 def observe(ctx, cfgs, label):
@@ -148,7 +157,7 @@ def run(ctx):
         c = rec["case"]
         if c.get("kind") != "cfg":
             raise vlib.Inconclusive("unknown replay record")
-        recs, _ = observe(ctx, [c["cfg"]], "replay")
+        recs, _ = observe(ctx, [normalise(c["cfg"])], "replay")
         report(ctx, recs, judge(ctx, recs, label="judge replayed configuration"))
         return
 
@@ -163,7 +172,7 @@ def run(ctx):
     cfgs += [random_cfg(rng) for _ in range(300 if not thorough else 8000)]
     for k in vlib.known_replay_cases("C10"):
         if k.get("kind") == "cfg":
-            cfgs.append(k["cfg"])
+            cfgs.append(normalise(k["cfg"]))
     ctx.log("TLC enumerated %d configurations (%d valid by the specification) in %.1fs; +%d seed-drawn" % (n_enum, spec_valid, r.wall, len(cfgs) - n_enum))
 
     recs, summ = observe(ctx, cfgs, "main")
